@@ -97,21 +97,21 @@ Proof. vm_compute. split; reflexivity. Qed.
 
 (* the ledger: a successful load leaves exactly the backend live, owned by the returned case;
    dropping the case releases it, once; a load that stops anywhere leaves the ledger unchanged *)
-Theorem ledger_success l n live :
+Theorem ledger_success l n h live :
   l <> LFull ->
-  exists b, load_ledger l n SNone live = (b :: live, true) /\ drop_case l n (b :: live) = live.
+  exists b, load_ledger l n SNone h live = (b :: live, true) /\ drop_case l n (b :: live) = live.
 Proof.
-  intros Hl. destruct l; try contradiction; vm_compute; eauto.
+  intros Hl. destruct l; try contradiction; destruct h; vm_compute; eauto.
 Qed.
 
-Theorem ledger_failure l n s live :
-  can_stop l s = true -> load_ledger l n s live = (live, false).
+Theorem ledger_failure l n s h live :
+  can_stop l s = true -> load_ledger l n s h live = (live, false).
 Proof.
-  intros H. destruct l, s; try discriminate H; reflexivity.
+  intros H. destruct l, s; try discriminate H; destruct h; reflexivity.
 Qed.
 
-Theorem ledger_full n s live : fst (load_ledger LFull n s live) = live.
-Proof. destruct s; reflexivity. Qed.
+Theorem ledger_full n s h live : fst (load_ledger LFull n s h live) = live.
+Proof. destruct s, h; reflexivity. Qed.
 
 (* every stop tag other than SNone that a loader does not contain is simply not a way to fail *)
 Theorem can_stop_table :
@@ -123,14 +123,31 @@ Theorem can_stop_table :
 Proof. reflexivity. Qed.
 
 (* the code of the pinned tree (no guard): a failing deserialization leaves the backend behind *)
-Theorem ledger_pinned_leaks n live :
-  ledger_of (loader_steps_pinned LMem n) SDeser live = (RHeap (capacity LMem n) :: live, false) /\
-  ledger_of (loader_steps_pinned LMmap n) SDeser live = (RMapping (capacity LMmap n) :: live, false) /\
-  ledger_of (loader_steps_pinned LMap n) SDeser live = (RMapping n :: live, false).
-Proof. repeat split. Qed.
+Theorem ledger_pinned_leaks n h live :
+  ledger_of (loader_steps_pinned LMem n) SDeser h live = (RHeap (capacity LMem n) :: live, false) /\
+  ledger_of (loader_steps_pinned LMmap n) SDeser h live = (RMapping (capacity LMmap n) :: live, false) /\
+  ledger_of (loader_steps_pinned LMap n) SDeser h live = (RMapping n :: live, false).
+Proof. destruct h; repeat split. Qed.
 
 (* moving the disarming of the guard before the fallible step re-creates the leak (seeded change C09-a) *)
-Theorem ledger_early_disarm_leaks n live :
-  ledger_of [LTry SMetadata; LAcquire RFile SOpen; LAcquire (RMapping n) SAcquire; LPublish (RMapping n); LArm; LDisarm; LTry SDeser] SDeser live
+Theorem ledger_early_disarm_leaks n h live :
+  ledger_of [LTry SMetadata; LAcquire RFile SOpen; LAcquire (RMapping n) SAcquire; LPublish (RMapping n); LArm; LDisarm; LTry SDeser] SDeser h live
   = (RMapping n :: live, false).
-Proof. reflexivity. Qed.
+Proof. destruct h; reflexivity. Qed.
+
+(* replacing the drop guard by an error handler on the Result (seeded change C09-d) keeps every
+   stop by error clean and every success intact, and leaks the backend exactly when
+   deserialization panics (a file truncated inside a zero-copy payload does that) *)
+Theorem ledger_map_err l n live :
+  l <> LFull ->
+  (forall s, can_stop l s = true -> ledger_of (loader_steps_map_err l n) s ByErr live = (live, false)) /\
+  (forall h, ledger_of (loader_steps_map_err l n) SNone h live = ledger_of (loader_steps l n) SNone h live) /\
+  (forall s, can_stop l s = true -> s <> SDeser -> ledger_of (loader_steps_map_err l n) s ByPanic live = (live, false)) /\
+  exists b, ledger_of (loader_steps_map_err l n) SDeser ByPanic live = (b :: live, false).
+Proof.
+  intros Hl. destruct l; try contradiction; repeat split.
+  all: try (intros s Hs; destruct s; try discriminate Hs; reflexivity).
+  all: try (intros h; destruct h; reflexivity).
+  all: try (intros s Hs Hn; destruct s; try discriminate Hs; try reflexivity; contradiction).
+  all: eexists; reflexivity.
+Qed.
